@@ -16,7 +16,7 @@ Local Open Scope N_scope.
 Definition encv (v : val) : Z * Z := match v with VInt z => (0, z) | VBool b => (1, if b then 1 else 0) | VNone => (2, 0) | VStr s => (3, Z.of_N s) end%Z.
 Definition enco (o : option val) : Z * Z := match o with Some v => encv v | None => (4, 0)%Z end.
 Definition ence (en : entry) := (event_idx (fst (fst en)), snd (fst en), enco (snd en)).
-Definition encx (x : option lexc) : N := match x with None => 0 | Some (LX ENameError) => 1 | Some (LX ETypeError) => 2 | Some (LX EZeroDiv) => 3 | Some LFuel => 8 end.
+Definition encx (x : option lexc) : N := match x with None => 0 | Some (LX ENameError) => 1 | Some (LX ETypeError) => 2 | Some (LX EZeroDiv) => 3 | Some LFuel => 8 | Some LBrk => 6 | Some LCnt => 7 end.
 Definition encenv (r : env) (names : list N) := map (fun x => match r x with Some v => encv v | None => (5, 0)%Z end) names.
 Definition guard_eqb (a b : guard) : bool := N.eqb (guard_id a) (guard_id b).
 Definition mkpol (rules : list (nat * bool * guard)) (log : list entry) (g : guard) : bool :=
@@ -40,8 +40,11 @@ Definition one (c : rcfg) (ge : bool) (rules : list (nat * bool * guard)) (names
 class GLoop(rwfrag.GSem):
     def loop(self, depth, var):
         k = self.rng.choice([1, 2, 2, 3])
+        self.in_loop = getattr(self, "in_loop", 0) + 1
         body = self.stmts(depth + 1, self.rng.choice([1, 2]), loops=(var == "i"))
-        out = ["%s = 0" % var, "while %s < %d:" % (var, k)] + ["    " + l for l in body] + ["    %s = %s + 1" % (var, var)]
+        self.in_loop -= 1
+        # the counter is advanced first, so that `continue` cannot skip it
+        out = ["%s = 0" % var, "while %s < %d:" % (var, k), "    %s = %s + 1" % (var, var)] + ["    " + l for l in body]
         if self.rng.random() < 0.3:
             out += ["else:"] + ["    " + l for l in self.stmts(depth + 1, 1, loops=False)]
         return out
@@ -50,7 +53,14 @@ class GLoop(rwfrag.GSem):
         out = []
         for _ in range(n):
             r = self.rng.random()
-            if loops and r < 0.35 and depth <= 1:
+            if getattr(self, "in_loop", 0) and r < 0.18:
+                # break / continue, bare or under a condition
+                kw = self.rng.choice(["break", "continue"])
+                if self.rng.random() < 0.75:
+                    out += ["if %s:" % self.expr(), "    " + kw]
+                else:
+                    out.append(kw)
+            elif loops and r < 0.4 and depth <= 1:
                 out += self.loop(depth, "i" if depth == 0 else "j")
             elif r < 0.65:
                 out.append("%s = %s" % (" = ".join(self.rng.sample(["a", "b", "c", "d"], self.rng.choice([1, 1, 2]))), self.expr()))
@@ -153,7 +163,8 @@ def check(ctx, rng, n, extra_cases=()):
         texts.append(("fragloop_%d" % i, "\n".join(L) + "\n"))
     res = lib.coq_eval_many(texts, timeout=900)
     ok, bad, violations = 0, [], []
-    dist = {"raising": 0, "log_entries": 0, "guards_enabled": 0, "rules": 0, "rules_fired": 0}
+    dist = {"raising": 0, "log_entries": 0, "guards_enabled": 0, "rules": 0, "rules_fired": 0,
+            "programs_with_break": sum(1 for c in cases if "break" in c["src"]), "programs_with_continue": sum(1 for c in cases if "continue" in c["src"])}
     for i in range(0, len(cases), shard):
         rc_, o = res["fragloop_%d" % i]
         vals = lib.parse_marked(o) if rc_ == 0 else []
